@@ -374,7 +374,7 @@ impl<'tcx> Cx<'tcx> {
     }
 }
 
-fn body_json<'tcx>(tcx: TyCtxt<'tcx>, krate: &str, ldid: LocalDefId, kind: &str, body: &'tcx Body<'tcx>) -> String {
+fn body_json<'tcx>(tcx: TyCtxt<'tcx>, krate: &str, ldid: LocalDefId, kind: &str, body: &'tcx Body<'tcx>, promoted: Option<usize>) -> String {
     let did = ldid.to_def_id();
     let env = TypingEnv::post_analysis(tcx, did);
     let cx = Cx { tcx, body, env, def: did };
@@ -468,7 +468,7 @@ fn body_json<'tcx>(tcx: TyCtxt<'tcx>, krate: &str, ldid: LocalDefId, kind: &str,
     obj(&[
         ("k", "\"body\"".into()),
         ("crate", s(krate)),
-        ("path", s(&path_of(tcx, did))),
+        ("path", s(&match promoted { Some(i) => format!("{}::promoted[{}]", path_of(tcx, did), i), None => path_of(tcx, did) })),
         ("kind", s(kind)),
         ("dk", s(&format!("{:?}", dk))),
         ("file", s(&l.file)),
@@ -528,8 +528,17 @@ pub fn dump_crate<'tcx>(tcx: TyCtxt<'tcx>, krate: &str, out: &mut Vec<u8>) {
             DefKind::Ctor(..) => continue,
             _ => continue,
         };
-        let line = body_json(tcx, krate, ldid, kind, body);
+        let line = body_json(tcx, krate, ldid, kind, body, None);
         out.extend_from_slice(line.as_bytes());
         out.push(b'\n');
+        // promoted constants of functions and closures (`&(0..=6)`, `&[1, 2]` ...): small bodies that build the value
+        if kind == "fn" || kind == "closure" {
+            let proms = tcx.promoted_mir(did);
+            for (i, pb) in proms.iter_enumerated() {
+                let line = body_json(tcx, krate, ldid, "promoted", pb, Some(i.as_usize()));
+                out.extend_from_slice(line.as_bytes());
+                out.push(b'\n');
+            }
+        }
     }
 }
